@@ -71,3 +71,58 @@ def pre_ll_diff(R):
     rc, out, _, _, _ = sh([exe], timeout=300)
     ok = rc == 0 and 'LL-DIFF-OK' in out
     return ok, 'll2c differential validation (translated C vs real functions, gcc builds): ' + out.strip()[-200:]
+
+# ---- CTR back ends: (cipher id, vec width) -> files, names, layout ----
+CTR_CIPH = {1: 'skinny128', 2: 'skinny64', 3: 'mantis'}
+CTR_BACKENDS = [(1, 0), (1, 128), (1, 256), (2, 0), (2, 128), (3, 0), (3, 128)]
+CTR_FUNCS = ['init', 'cleanup', 'set_key', 'set_tweaked_key', 'set_tweak', 'set_counter', 'encrypt']
+VLAYOUT = {  # expected x86-64 layout of the vector contexts: counter, ecounter, offset, base_ptr, size
+    (1, 128): ('Skinny128CTRVec128Ctx_t', 480, 544, 608, 616, 624), (1, 256): ('Skinny128CTRVec256Ctx_t', 480, 608, 736, 744, 768),
+    (2, 128): ('Skinny64CTRVec128Ctx_t', 176, 240, 304, 312, 320), (3, 128): ('MantisCTRVec128Ctx_t', 48, 112, 176, 184, 192)}
+
+def be_name(c, v):
+    return '%s-%s' % (CTR_CIPH[c], 'generic' if v == 0 else 'vec%d' % v)
+
+def ctr_vec_ll(c, v, extra_rename=None, opt='-O1', ct=False):
+    """ll units for the vector CTR back end of cipher c, width v: the vec file (statics exported) + the translated scalar cipher"""
+    from .core import LL
+    n = CTR_CIPH[c]
+    funcs = [f for f in CTR_FUNCS if not (c == 3 and f == 'set_tweaked_key')]
+    exp = tuple('%s_ctr_vec%d_%s' % (n, v, f) for f in funcs)
+    return [LL('src/%s-ctr-vec%d.c' % (n, v), flags=('-mavx2' if v == 256 else '-msse2',), export=exp, rename=extra_rename, opt=opt, ct=ct),
+            LL('src/%s-cipher.c' % n, flags=('-msse2',), opt=opt, ct=ct)]
+
+def pre_layout(R):
+    """the byte offsets the harnesses use for vector contexts must equal gcc's offsetof and clang's layout"""
+    import json
+    from .core import INC, GUARD
+    prog = ['#include <stdio.h>', '#include <stddef.h>']
+    body = []
+    for (c, v), (t, oc, oe, oo, ob, sz) in VLAYOUT.items():
+        n = CTR_CIPH[c]
+        # include each vec file in its own namespace by compiling separately would be cleaner; the struct names are unique
+        body.append((n, v, t, (oc, oe, oo, ob, sz)))
+    ok = True; notes = []
+    for n, v, t, exp in body:
+        src = os.path.join(R.scratch, 'lay_%s_%d.c' % (n, v))
+        with open(src, 'w') as f:
+            f.write('#include <stdio.h>\n#include <stddef.h>\n#include "%s/src/%s-ctr-vec%d.c"\nint main(void){ printf("%%zu %%zu %%zu %%zu %%zu\\n", offsetof(%s,counter), offsetof(%s,ecounter), offsetof(%s,offset), offsetof(%s,base_ptr), sizeof(%s)); return 0; }\n'
+                    % (REPO, n, v, t, t, t, t, t))
+        exe = src[:-2]
+        rc, out, _, _, _ = sh(['gcc', '-std=c99', '-O0', '-w', '-mavx2' if v == 256 else '-msse2', '-D' + GUARD, '-no-pie', '-Wl,--unresolved-symbols=ignore-all'] + INC + [src, '-o', exe], timeout=120)
+        if rc: return False, 'layout: cannot compile %s: %s' % (src, out[-300:])
+        rc, out, _, _, _ = sh([exe], timeout=30)
+        got = tuple(int(x) for x in out.split())
+        if got != exp: ok = False; notes.append('%s vec%d: gcc %s, harness %s' % (n, v, got, exp))
+        ll = src[:-2] + '.ll'
+        rc, out, _, _, _ = sh(['clang-14', '-std=c99', '-O1', '-mavx2' if v == 256 else '-msse2', '-D' + GUARD] + INC +
+                              ['-S', '-emit-llvm', os.path.join(REPO, 'src', '%s-ctr-vec%d.c' % (n, v)), '-o', ll], timeout=120)
+        if rc: return False, 'layout: clang failed: ' + out[-300:]
+        rc, out, _, _, _ = sh([sys.executable, os.path.join(VERIF, 'vlib', 'll2c.py'), ll, ll + '.c', ll + '.json'], timeout=120)
+        if rc: return False, 'layout: ll2c failed: ' + out[-300:]
+        lay = json.load(open(ll + '.json'))['layout'].get('struct.' + t)
+        if not lay: ok = False; notes.append('%s vec%d: struct %s not in IR' % (n, v, t))
+        else:
+            cl = tuple(lay['offsets'][1:5]) + (lay['size'],)
+            if cl != exp: ok = False; notes.append('%s vec%d: clang/ll2c %s, harness %s' % (n, v, cl, exp))
+    return ok, 'vector context layout (gcc offsetof and clang/ll2c layout vs harness constants): ' + ('ok' if ok else 'MISMATCH ' + '; '.join(notes))
